@@ -68,6 +68,16 @@ pub fn count_blocks(module: &naga::Module) -> u64 {
     module.functions.iter().map(|(_, f)| block(&f.body)).sum::<u64>() + module.entry_points.iter().map(|e| block(&e.function.body)).sum::<u64>()
 }
 
+/// CPU time consumed by the calling thread (seconds): unlike wall-clock time it does not grow when the machine is
+/// busy with other work, so a limit on it is a statement about the code, not about the load.
+pub fn thread_cpu_seconds() -> f64 {
+    let mut ts = libc::timespec { tv_sec: 0, tv_nsec: 0 };
+    unsafe {
+        libc::clock_gettime(libc::CLOCK_THREAD_CPUTIME_ID, &mut ts);
+    }
+    ts.tv_sec as f64 + ts.tv_nsec as f64 * 1e-9
+}
+
 pub struct Shape {
     pub key: String,
     pub src: String,
@@ -442,6 +452,20 @@ pub fn scale_family(kind: &str, n: usize) -> Shape {
             t = 2;
             m = 0;
         }
+        "override-diamond" | "const-diamond" => {
+            // n levels of `override k_i = k_{i-1} * k_{i-1}` (each level names the previous one twice); the last one sizes
+            // a workgroup, a workgroup array and is read in a function; the const variant does the same with `const`
+            let kw = if kind == "override-diamond" { "override" } else { "const" };
+            src.push_str(&format!("{kw} k_0: u32 = 1u;\n"));
+            for i in 1..=n {
+                src.push_str(&format!("{kw} k_{i}: u32 = k_{} * k_{};\n", i - 1, i - 1));
+            }
+            src.push_str(&format!("var<workgroup> tile: array<f32, k_{n}>;\n@compute @workgroup_size(k_{n}, 1, k_{}) fn cs_main() {{ tile[0] = f32(k_{n}); }}\n@fragment fn fs_main() -> @location(0) vec4<f32> {{ return vec4<f32>(f32(k_{})); }}\n", n / 2, n / 3));
+            e = 2;
+            g = 1;
+            t = 3;
+            m = 1;
+        }
         "array-nesting-1" | "array-nesting-1-vertex-and-override" => {
             // one-element arrays nested n deep (the size stays 16 bytes however deep): as a struct member of a storage
             // variable, as the type of a private variable and of a function-local value
@@ -467,10 +491,10 @@ pub fn scale_family(kind: &str, n: usize) -> Shape {
 pub fn check(s: &Shape, rep: &mut Report) {
     rep.states += 1;
     rep.transitions += s.f + s.c + s.t + s.m;
-    let t_ref = std::time::Instant::now();
+    let t_ref = thread_cpu_seconds();
     let naga_result = naga_check(&s.src);
-    // same-size reference measured in the same thread under the same load: naga's own parse + validation
-    let naga_s = t_ref.elapsed().as_secs_f64();
+    // same-size reference measured in the same thread: naga's own parse + validation (thread CPU time)
+    let naga_s = thread_cpu_seconds() - t_ref;
     let blocks = match &naga_result {
         Ok((m, _)) => count_blocks(m),
         Err(e) => {
@@ -490,9 +514,9 @@ pub fn check(s: &Shape, rep: &mut Report) {
     FN_BUDGET.with(|b| b.set(s.fn_bound()));
     TY_BUDGET.with(|b| b.set(s.ty_bound()));
     rep.evaluations += 1;
-    let t0 = std::time::Instant::now();
+    let t0 = thread_cpu_seconds();
     let out = generate(&s.src, &Config::default());
-    let wall = t0.elapsed().as_secs_f64();
+    let wall = thread_cpu_seconds() - t0;
     FN_BUDGET.with(|b| b.set(u64::MAX));
     TY_BUDGET.with(|b| b.set(u64::MAX));
     BLK_BUDGET.with(|b| b.set(u64::MAX));
@@ -519,7 +543,7 @@ pub fn check(s: &Shape, rep: &mut Report) {
             rep.outcomes.insert(format!("ok fn<= {} ty<= {}", fv.next_power_of_two(), tv.next_power_of_two()));
             let limit = (50.0 * naga_s).max(2.0);
             if wall > limit {
-                rep.violation(s.key.clone(), format!("generation took {wall:.1}s in-process (limit {limit:.1}s = max(2 s, 50 x naga's own parse+validate of the same source)) within step budgets"), detail);
+                rep.violation(s.key.clone(), format!("generation took {wall:.1}s of CPU time in-process (limit {limit:.1}s = max(2 s, 50 x naga's own parse+validate of the same source)) within step budgets"), detail);
             }
             if s.key.starts_with("scale|") {
                 rep.count(&format!("scale family wall ms <= {}", ((wall * 1000.0) as u64).next_power_of_two()));
@@ -708,6 +732,8 @@ pub fn scale_cases() -> Vec<(&'static str, usize)> {
         ("ladder-other-pc", vec![8, 24, 40]),
         ("ladder-other-binding", vec![8, 24, 40]),
         ("ladder-other-both", vec![32]),
+        ("override-diamond", vec![8, 24, 48]),
+        ("const-diamond", vec![8, 24, 48]),
         ("array-nesting-1", vec![8, 24, 40, 60]),
         ("array-nesting-1-vertex-and-override", vec![30]),
         ("stmt-else-if-chain", vec![24, 48]),
@@ -729,16 +755,16 @@ pub fn child(kind: &str, depth: usize) -> i32 {
     if let Some(k) = kind.strip_prefix("scale:") {
         // prints: <ok> <generation seconds> <naga parse+validate seconds>
         let sh = scale_family(k, depth);
-        let t0 = std::time::Instant::now();
+        let t0 = thread_cpu_seconds();
         let valid = naga_check(&sh.src).is_ok();
-        let naga_s = t0.elapsed().as_secs_f64();
+        let naga_s = thread_cpu_seconds() - t0;
         if !valid {
             println!("2 0 {naga_s:.6}");
             return 0;
         }
-        let t1 = std::time::Instant::now();
+        let t1 = thread_cpu_seconds();
         let out = generate(&sh.src, &Config::default());
-        println!("{} {:.6} {naga_s:.6}", matches!(out, Outcome::Ok(_)) as u8, t1.elapsed().as_secs_f64());
+        println!("{} {:.6} {naga_s:.6}", matches!(out, Outcome::Ok(_)) as u8, thread_cpu_seconds() - t1);
         return 0;
     }
     let s = match kind {
@@ -754,9 +780,9 @@ pub fn child(kind: &str, depth: usize) -> i32 {
         "nested2" => type_family("nested2", depth, 1).src,
         k => family(k, depth, CallForm::Let, Ctx::Top, &[Stage::C]).unwrap().src,
     };
-    let t0 = std::time::Instant::now();
+    let t0 = thread_cpu_seconds();
     let out = generate(&s, &Config::default());
-    let dt = t0.elapsed().as_secs_f64();
+    let dt = thread_cpu_seconds() - t0;
     println!("{} {:.6}", matches!(out, Outcome::Ok(_)) as u8, dt);
     0
 }
@@ -912,7 +938,7 @@ pub fn run(tier: &str) -> i32 {
     rep.set("scale_families", json!(scale_report));
     rep.set("wall_clock_children", json!(wall));
     rep.traces_validated = rep.evaluations;
-    rep.rule = format!("(1) every tile: DAG on <= {} helpers with each forward edge in {{absent, 1 statement call, 1 value call, 2 statement calls, 2 value calls, 1+1 mixed}}, composed {}x in series; (2) chain / diamond / 3-fold fan-in / fan-out families at depths {:?} with every call form at every placement context, plus 4-entry and 290-function members; (3) nested two-/three-member struct types to depth 24/40, wide structs, many variables sharing one type; (3b) statement shapes in one function (else-if chains, nested if / else / loop / for / switch / blocks, mixed) at sizes up to 60 under 1 and 3 entry points, block visits <= 8*E*(B+1) from the walk:block hook; (3c) ladders 40 levels deep under one entry with a push constant / binding that only another entry uses; (4) size families: up to 1000 bindings / 1000 members / 300 structs / 64 vertex entries x 12 structs / 200 entry points sharing helpers / 300 consts+overrides / arrays nested 16 deep (two elements per level) and 60 deep (one element per level), each under 2 s. Oracle: walk:function visits <= 8*E*(F+C+1), walk:type visits <= 8*G*(T+M+1) (hook aborts at the budget); wall clock of amplified members in child processes <= max(2 s, 200 x same-size flat shader).", 4, if thorough { 16 } else { 8 }, if thorough { vec![8, 16, 32, 64] } else { vec![16, 64] });
+    rep.rule = format!("(1) every tile: DAG on <= {} helpers with each forward edge in {{absent, 1 statement call, 1 value call, 2 statement calls, 2 value calls, 1+1 mixed}}, composed {}x in series; (2) chain / diamond / 3-fold fan-in / fan-out families at depths {:?} with every call form at every placement context, plus 4-entry and 290-function members; (3) nested two-/three-member struct types to depth 24/40, wide structs, many variables sharing one type; (3b) statement shapes in one function (else-if chains, nested if / else / loop / for / switch / blocks, mixed) at sizes up to 60 under 1 and 3 entry points, block visits <= 8*E*(B+1) from the walk:block hook; (3c) ladders 40 levels deep under one entry with a push constant / binding that only another entry uses; (3d) override / const initialisers forming a 48-level diamond that sizes a workgroup and an array; (4) size families: up to 1000 bindings / 1000 members / 300 structs / 64 vertex entries x 12 structs / 200 entry points sharing helpers / 300 consts+overrides / arrays nested 16 deep (two elements per level) and 60 deep (one element per level), each under max(2 s, 50 x naga) of thread CPU time. Oracle: walk:function visits <= 8*E*(F+C+1), walk:type visits <= 8*G*(T+M+1) (hook aborts at the budget); CPU time of amplified members in child processes <= max(2 s, 200 x same-size flat shader), with a 20-30 s wall-clock cap that only a hang can reach.", 4, if thorough { 16 } else { 8 }, if thorough { vec![8, 16, 32, 64] } else { vec![16, 64] });
     rep.assumptions.push("step counts come from the verif-hooks points at the top of the two recursive walks; if a refactor removes them the wall-clock part decides alone".into());
     rep.finish()
 }
